@@ -61,10 +61,14 @@ def _subobjects(x):
 
 def _pred(p, item):
     """tiny predicate language over one failing input (known findings name the specific inputs that fail)"""
+    if "or" in p:
+        return any(_pred(q, item) for q in p["or"])
     if "any_subobject" in p:
         q = p["any_subobject"]
         for d in _subobjects(item):
             if all(k in d and d[k] == val for k, val in q.get("eq", {}).items()) and all(k in d for k in q.get("has", [])) \
+                    and all(k in d and d[k] in vals for k, vals in q.get("in", {}).items()) \
+                    and (not q.get("has_any") or any(k in d for k in q["has_any"])) \
                     and not any(k in d for k in q.get("lacks", [])):
                 return True
         return False
